@@ -152,7 +152,7 @@ Theorem close_effect s :
   fst (step s EClose) = with_sem (with_pstate (with_sigs s []) 1) (LaxSem.clear (sem s))
   /\ LaxSem.value (sem (fst (step s EClose))) = Z.max (LaxSem.value (sem s)) (LaxSem.bound (sem s)).
 Proof.
-  intros Hp. unfold step. change (pstate (with_sigs s [])) with (pstate s). rewrite Hp. cbn. auto.
+  intros Hp. unfold step, do_close. change (pstate (with_sigs s [])) with (pstate s). rewrite Hp. cbn. auto.
 Qed.
 
 (* the result counter of an Apply job is credited to the worker that owns it *)
